@@ -133,9 +133,9 @@ theorem wf_step (s : St) (e : Ev) (hi : Inv1 s) (hw : WF s) : WF (step .repaired
         exfalso
         obtain ⟨c, hc1, hc2, _⟩ := (w3 hp').timersOk serial (by simpa using hen)
         exact findCall_none hnone c hc1 hc2
-      · refine ⟨by simpa [St.emit] using w1, by simp_all [St.emit], ?_⟩
+      · refine ⟨by simpa using w1, by simp_all, ?_⟩
         intro hp
-        have hp' : s.phase = .ready := by simpa [St.emit] using hp
+        have hp' : s.phase = .ready := by simpa using hp
         exact readyOk_log _ _ (readyOk_removeCall serial s (w3 hp'))
     · exact ⟨w1, w2, w3⟩
   | call timed r =>
@@ -239,6 +239,16 @@ theorem wf_step (s : St) (e : Ev) (hi : Inv1 s) (hw : WF s) : WF (step .repaired
       · simp only []
         rw [dropProxy_alive_ids p s.proxies h5, ← h10, List.filter_map]
         rfl
+    · exact ⟨w1, w2, w3⟩
+  | cancelCall serial =>
+    simp only [step]
+    split
+    · rename_i hp
+      split
+      · split
+        · exact ⟨w1, w2, w3⟩
+        · exact ⟨by simp [hp], by simp [hp], fun _ => readyOk_markCancelled serial _ s (w3 hp)⟩
+      · exact ⟨w1, w2, w3⟩
     · exact ⟨w1, w2, w3⟩
 
 theorem reachable_inv (eps : List Endpoint) (h : List Ev) :
